@@ -119,20 +119,6 @@ func withSource(file string, opts []ucfg.Option) []ucfg.Option {
 	return append([]ucfg.Option{ucfg.MetaData(ucfg.Meta{Source: file})}, opts...)
 }
 
-// avoid18 reports whether the class of a finding has to be constructed away: it is open in known_findings.json, or
-// named in C18_AVOID (comma separated; for runs by hand while the finding is not recorded yet). Default: strict.
-func avoid18(id string) bool {
-	if runlog.IsOpen(id) {
-		return true
-	}
-	for _, f := range strings.Split(os.Getenv("C18_AVOID"), ",") {
-		if strings.TrimSpace(f) == id {
-			return true
-		}
-	}
-	return false
-}
-
 // ---------------------------------------------------------------------------
 // the verdict of a load
 
@@ -364,11 +350,6 @@ func sourcedLoad(mem, fil *way, file string, v *verdict) (err error) {
 	}
 	// a typed refusal is about a setting of the document: it names the file the document was read from
 	if fil.v.Typed && !strings.Contains(fil.v.Msg, note[1:]) {
-		if fil.v.Reason == "ucfg.ErrCyclicReference" && avoid18("N-C18-1") {
-			// N-C18-1: a dotted key below a setting that refers to itself is refused with the bare cyclic-reference error (no path, no source)
-			v.excluded = append(v.excluded, "N-C18-1")
-			return nil
-		}
 		return fmt.Errorf("the document is refused at load time, and the error of the file loader does not mention the file (want it to contain %s)", note[1:])
 	}
 	if strip(fil.v) != mem.v {
@@ -746,9 +727,6 @@ func runReject(c RCase, r *runlog.R) error {
 	for _, l := range v.classes {
 		r.Class(l)
 	}
-	for _, id := range v.excluded {
-		r.Excluded(id)
-	}
 	o := c.Opts
 	r.Class(fmt.Sprintf("opt PathSep: %q", o.Sep))
 	r.ClassIf(o.VarExp, "opt VarExp")
@@ -1009,7 +987,7 @@ func genReject(t *rapid.T) RCase {
 
 var subReject = runlog.Register(&runlog.Sub[RCase]{
 	Name: "rejections",
-	Rule: "Documents built to be REFUSED AT LOAD TIME or to come close (any JSON value at the top: object, list, 4 % scalars; depth <= 3/4, width <= 4/5): keys of 1-3 segments over a small pool of names (incl. case variants a/A, b/B) and of spellings of list indices (0 00 -0 +0 0x0, 1 01 +1 0x1 0b1 0o1, 8 010 0x8, 10 1_0 012 0xa, 1024/1025 around the default index limit, -1, non-literals like 08), joined with the case's path separator (or '.' when it has none, rarely '.' next to another separator), rarely with empty segments or written [in.brackets]; two fifths of the keys of an object are DERIVED from a sibling: a name inside the sibling's setting (a key of the sibling object incl. re-spelled, an index of the sibling list incl. one past its end, index 0/1 of a primitive), another spelling of the sibling (other index literal, other letter case), or an enclosing name; so dotted-vs-nested, value-vs-object, equal-index and case collisions occur at every depth, below lists and inside objects that are themselves spelled with dotted keys. Values: nulls, booleans, small integers, fractions, plain strings, and - always under VarExp, sometimes without - well-formed ${...} expressions (references to settings of the document, to an Env config, an OS variable, missing names, defaults, alternatives, ${x:?msg}, nested, escaped) and malformed ones (20 forms: unterminated, nested unterminated, empty, trailing '${' ...), lone '$' texts. Written once with encoding/json in one of 4 styles into a file whose NAME varies (plain, blanks, %-verbs, quotes, colon/#, '(source)', unicode, no extension) and whose PATH is spelled absolute, with /./, //, dir/../dir or relative to the working directory; that spelling is what the loaders get. Loaded without options and with the case's option set: PathSep \".\" (half), none, \"/\", \"::\"; VarExp (2/5) with ResolveNOOP / Env(config) / ResolveEnv; EnableNumKeys(true); MaxIdx 0,1,2,8,2000; EscapePath() - fresh option values for every call. Discarded: documents a third-party decoder rejects or the three decoders read differently. Oracle (differential, no model of what collides): per front-end the bytes are loaded five ways - NewConfig, NewConfig with MetaData{Source: file}, NewConfigWithFile, ucfg.NewFrom(value returned by the front-end's decoder) without and with that MetaData - i.e. 15 loads per option set. (a) NewConfigWithFile, NewConfig+MetaData and NewFrom+MetaData are indistinguishable: all load or all fail with the same Go error type, ucfg.Error-ness, Reason (sentinel identity or type and text), Class, Path, Message and trace presence; loaded configs dump to equal generic data (or the same Unpack error). (b) the same for NewConfig and NewFrom without MetaData. (c) NewConfigWithFile against NewConfig: both load or both fail; the memory side names no source; the file side names no source other than the path as passed; a refusal that is a ucfg.Error (it is about a setting of the document: duplicate name, value used as object, malformed expression, unsupported top-level type) contains (source:'<path as passed>'); file-side verdict with the source note removed equals the memory-side verdict in every component. (d) the three front-ends give the same verdict (messages compared after replacing the number type names 'int'/'uint'/'float', the one difference the decoders have by design) and, when they load, equal generic data or the same kind of Unpack error. (e) after a successful load, memory and file config agree on the generic dump and on ONE forced typed target (map[string]int, map[string]map[string]bool, []int, map[string][]map[string][2]int, []map[string]int, map[string]map[string]map[string]int): same values, or the same message up to the source note, which must be present when the message's path names a setting that exists in the dump and is not null (not demanded with live references: the failing value may come from an Env config or resolver). When two refusals differ only in WHICH duplicate name they report, both loads are repeated 32 times and the difference is accepted iff the two sets of reports intersect (the library walks a Go map when two objects given for one name are merged; several collisions in them are reported in varying order; counted as a class). N-C18-1 (default strict; constructed away only while that id is open or named in C18_AVOID): the bare cyclic-reference refusal without source. Non-trivial: the library refused the document at load time under at least one of the two option sets. Distinct: hash of the whole case.",
+	Rule: "Documents built to be REFUSED AT LOAD TIME or to come close (any JSON value at the top: object, list, 4 % scalars; depth <= 3/4, width <= 4/5): keys of 1-3 segments over a small pool of names (incl. case variants a/A, b/B) and of spellings of list indices (0 00 -0 +0 0x0, 1 01 +1 0x1 0b1 0o1, 8 010 0x8, 10 1_0 012 0xa, 1024/1025 around the default index limit, -1, non-literals like 08), joined with the case's path separator (or '.' when it has none, rarely '.' next to another separator), rarely with empty segments or written [in.brackets]; two fifths of the keys of an object are DERIVED from a sibling: a name inside the sibling's setting (a key of the sibling object incl. re-spelled, an index of the sibling list incl. one past its end, index 0/1 of a primitive), another spelling of the sibling (other index literal, other letter case), or an enclosing name; so dotted-vs-nested, value-vs-object, equal-index and case collisions occur at every depth, below lists and inside objects that are themselves spelled with dotted keys. Values: nulls, booleans, small integers, fractions, plain strings, and - always under VarExp, sometimes without - well-formed ${...} expressions (references to settings of the document, to an Env config, an OS variable, missing names, defaults, alternatives, ${x:?msg}, nested, escaped) and malformed ones (20 forms: unterminated, nested unterminated, empty, trailing '${' ...), lone '$' texts. Written once with encoding/json in one of 4 styles into a file whose NAME varies (plain, blanks, %-verbs, quotes, colon/#, '(source)', unicode, no extension) and whose PATH is spelled absolute, with /./, //, dir/../dir or relative to the working directory; that spelling is what the loaders get. Loaded without options and with the case's option set: PathSep \".\" (half), none, \"/\", \"::\"; VarExp (2/5) with ResolveNOOP / Env(config) / ResolveEnv; EnableNumKeys(true); MaxIdx 0,1,2,8,2000; EscapePath() - fresh option values for every call. Discarded: documents a third-party decoder rejects or the three decoders read differently. Oracle (differential, no model of what collides): per front-end the bytes are loaded five ways - NewConfig, NewConfig with MetaData{Source: file}, NewConfigWithFile, ucfg.NewFrom(value returned by the front-end's decoder) without and with that MetaData - i.e. 15 loads per option set. (a) NewConfigWithFile, NewConfig+MetaData and NewFrom+MetaData are indistinguishable: all load or all fail with the same Go error type, ucfg.Error-ness, Reason (sentinel identity or type and text), Class, Path, Message and trace presence; loaded configs dump to equal generic data (or the same Unpack error). (b) the same for NewConfig and NewFrom without MetaData. (c) NewConfigWithFile against NewConfig: both load or both fail; the memory side names no source; the file side names no source other than the path as passed; a refusal that is a ucfg.Error (it is about a setting of the document: duplicate name, value used as object, malformed expression, a dotted key below a setting that refers to itself, unsupported top-level type) contains (source:'<path as passed>'); file-side verdict with the source note removed equals the memory-side verdict in every component. (d) the three front-ends give the same verdict (messages compared after replacing the number type names 'int'/'uint'/'float', the one difference the decoders have by design) and, when they load, equal generic data or the same kind of Unpack error. (e) after a successful load, memory and file config agree on the generic dump and on ONE forced typed target (map[string]int, map[string]map[string]bool, []int, map[string][]map[string][2]int, []map[string]int, map[string]map[string]map[string]int): same values, or the same message up to the source note, which must be present when the message's path names a setting that exists in the dump and is not null (not demanded with live references: the failing value may come from an Env config or resolver). When two refusals differ only in WHICH duplicate name they report, both loads are repeated 32 times and the difference is accepted iff the two sets of reports intersect (the library walks a Go map when two objects given for one name are merged; several collisions in them are reported in varying order; counted as a class). Non-trivial: the library refused the document at load time under at least one of the two option sets. Distinct: hash of the whole case.",
 	Gen:  genReject,
 	Run:  runReject,
 	// expressions and references are evaluated while loading (a dotted key below a reference): a changed library may recurse without bound
